@@ -201,6 +201,19 @@ Theorem C20_terminal_spec :
 Proof. exact terminal_spec. Qed.
 Print Assumptions C20_terminal_spec.
 
+(* Mixed-position pairs U_qp U_pr are left untouched by the code and by the
+   model.  What their contraction is worth: s * delta_qr for a carrier with
+   U_xy = s U_yx, i.e. -delta_qr for a bra-ket antisymmetric orthogonal tensor. *)
+Theorem C20_mixed_position_sum :
+  forall (S : Scalar) (T : tmodel S) name R c1 c2 (sg : bool),
+    orthogonal S T name R ->
+    (forall x y, mat S T name c1 x y = kmul S (ksgn sg) (mat S T name c1 y x)) ->
+    forall x y, In x R -> In y R ->
+      ksum R (fun o => kmul S (mat S T name c1 x o) (mat S T name c2 o y))
+      = kmul S (ksgn sg) (if Nat.eqb x y then k1 S else k0 S).
+Proof. exact mixed_position_sum. Qed.
+Print Assumptions C20_mixed_position_sum.
+
 (* The hypotheses are satisfiable: a rotation matrix over the rationals. *)
 Theorem C20_orthogonal_example :
   forall sp sn, orthogonal QcScalar Tex "U" (rng Tex sp sn).
